@@ -54,4 +54,36 @@ def transferFundsToLaunchpadDao (funds : List Coin) (fee : Nat) (denom : Denom) 
   if payment < fee then throw .insufficientFee
   pure [ Msg.send LAUNCHPAD_DAO ⟨denom, payment⟩ ]
 
+/-! ## Who calls the fee library how (the published schedule by caller)
+
+Index = the harness' `ALL_MINTERS` order: 0 vending, 1 -featured, 2 -wl-flex, 3 -wl-flex-featured, 4 -merkle-wl,
+5 -merkle-wl-featured, 6 open-edition, 7 -wl-flex, 8 -merkle-wl, 9 token-merge, 10 base. Featured minters are the three whose
+name says so; a developer address is passed by the three open-edition minters only. -/
+def callerFeatured (k : Nat) : Bool := k == 1 || k == 3 || k == 5
+def callerHasDev (k : Nat) : Bool := k == 6 || k == 7 || k == 8
+
+/-- total amount the message list sends to `a` -/
+def sentTo (a : Addr) : List Msg → Nat
+  | [] => 0
+  | Msg.send d c :: ms => (if d == a then c.amount else 0) + sentTo a ms
+  | Msg.fundPool _ c :: ms => (if a == FAIRBURN_POOL then c.amount else 0) + sentTo a ms
+  | _ :: ms => sentTo a ms
+/-- total amount burned -/
+def burnedBy : List Msg → Nat
+  | [] => 0
+  | Msg.burn c :: ms => c.amount + burnedBy ms
+  | _ :: ms => burnedBy ms
+/-- the bank refuses a transfer/burn of a zero amount: a fee split with a zero part aborts the whole transaction -/
+def msgAmount : Msg → Nat
+  | Msg.send _ c => c.amount
+  | Msg.burn c => c.amount
+  | Msg.fundPool _ c => c.amount
+def allNonzero (ms : List Msg) : Bool := ms.all (fun m => msgAmount m != 0)
+
+/-- the fee messages of one public mint at `price` on minter kind `k` with factory `mint_fee_bps = b`: `network_fee = price × bps`
+(floor); nothing when it is zero; otherwise `distribute_mint_fees(network_fee, featured(k), developer(k))` -/
+def mintFeeMsgs (k : Nat) (price b : Nat) (dev : Addr) : List Msg :=
+  let fee := mulFloor price (bps b)
+  if fee = 0 then [] else distributeMintFees ⟨NATIVE, fee⟩ (callerFeatured k) (if callerHasDev k then some dev else none)
+
 end LP.Sg1
